@@ -47,6 +47,34 @@ class Report(object):
         sys.stdout.flush()
         self.lines.append(s)
 
+    # ---- interface for bounded / evaluation checks (props.PROPS[pid]["extra"] hooks) -------------
+    def add_bounded(self, name, domain, evaluations, exhaustive, distinct=None, samples=None, note=None):
+        """Record a bounded stand-in check (never counted as proved)."""
+        self.bounded.append({"check": name, "domain": domain, "evaluations": int(evaluations), "exhaustive": bool(exhaustive),
+                             "distinct_nontrivial": distinct, "samples": samples or [], "note": note})
+
+    def add_eval_fact(self, name, ok, detail=""):
+        """A ground fact over a finite live table, discharged by evaluation in CPython (back end 'eval')."""
+        self.eval_facts.append({"fact": name, "ok": bool(ok), "detail": detail})
+
+    def violation(self, name, payload, replayed=True):
+        """Report a violation found by a bounded/evaluation check unless a committed known finding explains it.
+        payload: JSON-able dict with at least 'what' and 'inputs'; it may carry 'known_key' (string) which is
+        matched against known_findings.json entries {"property","kind":"known","id","key","what"}."""
+        for k in load_known():
+            if k.get("property") == self.pid and k.get("kind") == "known" and k.get("key") and k.get("key") == payload.get("known_key"):
+                if k["id"] not in self.known:
+                    self.known.append(k["id"])
+                    self.say("KNOWN-FINDING: property=%s %s" % (self.pid, k["what"]))
+                return False
+        path = write_replay(self, name, payload)
+        v = dict(payload)
+        v["replay"] = path
+        v["replayed"] = replayed
+        self.violations.append(v)
+        self.say("VIOLATION property=%s replay=%s%s" % (self.pid, path, "" if replayed else " no-failing-input-found"))
+        return True
+
 
 def load_known():
     p = os.path.join(VERIF, "known_findings.json")
@@ -314,7 +342,11 @@ def finish(rep, ulist, level_if_all, coverage_extra, assumptions, checker_cmd, t
             by_backend[r["solver"]] = by_backend.get(r["solver"], 0) + 1
         else:
             failures.append((u, o, r))
-    exit_code = 0
+    exit_code = 1 if rep.violations else 0
+    for f in rep.eval_facts:
+        if not f["ok"]:
+            rep.violation("eval-" + f["fact"], {"what": "ground fact false: " + f["fact"], "inputs": f["detail"]})
+            exit_code = 1
     # units outside the subset: undecided -> bounded stand-in
     for u in ulist:
         if u.error:
@@ -360,6 +392,8 @@ def finish(rep, ulist, level_if_all, coverage_extra, assumptions, checker_cmd, t
                 rep.say("UNPROVED obligation=%s reason=%s bounded-check=%s" % (o.id, str(r.get("reason"))[:80], "passed" if b and b.get("ran") else "not-run"))
     all_proved = discharged == n_obl and not any(u.error for u in ulist)
     level = level_if_all if (all_proved or rep.known and not rep.unproved) else "other"
+    if level == "proof" and n_obl + len(rep.eval_facts) == 0:
+        level = "other"
     samples = []
     for (u, o) in obls[:: max(1, n_obl // 6)][:6]:
         samples.append({"obligation": o.id, "clause": o.text, "kind": o.kind, "source_line": o.lineno,
@@ -386,11 +420,17 @@ def finish(rep, ulist, level_if_all, coverage_extra, assumptions, checker_cmd, t
         "unproved": rep.unproved,
         "known_findings_matched": rep.known,
         "bounded_checks": rep.bounded,
+        "evaluations": sum(b["evaluations"] for b in rep.bounded) or None,
+        "distinct_nontrivial": sum((b.get("distinct_nontrivial") or 0) for b in rep.bounded) or None,
+        "exhaustive": bool(rep.bounded) and all(b["exhaustive"] for b in rep.bounded) and n_obl == 0,
         "eval_facts": rep.eval_facts,
         "samples": samples,
         "explanation": "deductive verification of the real source: each listed function/lemma was turned into verification conditions from "
                        "/repo's current working tree and every condition was sent to an SMT solver; 'discharged' counts unsat answers",
     }
+    cov = {k: v for k, v in cov.items() if v is not None}
+    if n_obl == 0:
+        cov["samples"] = [x for b in rep.bounded for x in (b.get("samples") or [])][:8] or [b["check"] for b in rep.bounded]
     cov.update(coverage_extra or {})
     cov.update(rep.extra_coverage)
     trusted = [c for c in api.REG.contracts.values() if c.trusted and c.fq in api.REG.used_contracts]
